@@ -129,6 +129,10 @@ D = {
     "C21f": ("fixed_point_iteration without the defensive copies (same slip as seeded/C22b, found independently)", "DualStormerVerlet(accelerated=False) with velocity-dependent forces"),
     "C24f": ("System.set_new_initial_state writes into the contributions' existing arrays (same change as seeded/C09c, found independently)", "bodies built from one shared u0 array, or integer-typed initial arrays"),
     "C28f": ("system_from_urdf accumulates the transport term in place into J_v_JRc, the array joint_kinematics returned", "a floating joint below the root whose velocity is requested as a numpy array: integer-typed raises, float-typed is modified for the caller and wrong on a second import"),
+    "C05f": ("rod r_OP adds the offset into the cached centerline (same change as seeded/C11e, found independently)", "a joint on a rod cross-section whose joint point lies off the centerline, evaluated more than once at the same element coordinates"),
+    "C08f": ("TwoPointInteraction.l_dot_q = u @ W_l_q", "an end point on a Frame with prescribed velocity (base excitation) and a force law with a rate term: the prescribed velocity is not carried by u"),
+    "C20f": ("SolutionIterator keeps its record type as a class attribute created on first use", "solutions of two solver families (different extra fields) iterated in one process: the second raises RuntimeError"),
+    "C29f": ("export_contr builds the frame file with Path.with_suffix (same slip as seeded/C29d, found independently)", "a name containing a dot"),
     "C22b": ("fixed_point_iteration calls fun(x) without the defensive copy", "a fixed-point map that updates its argument in place (DualStormerVerlet's own map with accelerated=False does)"),
 }
 rows = []
